@@ -83,6 +83,11 @@ pub fn check_tree(t: &T) -> Option<String> {
 }
 
 pub fn replay(case: &Value) -> Option<String> {
+    if let Some(r) = case.get("random") {
+        let props: Vec<String> = vec!["a".into(), "b".into(), "c".into()];
+        let t = biodivine_hctl_model_checker::preprocessing::hctl_tree::HctlTreeNode::new_random_boolean(r["levels"].as_u64()? as u8, &props, r["seed"].as_u64()?);
+        return check_lib_tree(&t);
+    }
     if let Some(s) = case.get("parse_text").and_then(|s| s.as_str()) {
         let lib = parse_extended_formula(s).ok()?;
         return check_lib_tree(&lib);
@@ -209,6 +214,30 @@ pub fn run(tier: &str) -> Result<Report, String> {
     rep.evaluations += fs.len() as u64;
     rep.set("preprocessed_trees_checked", json!(fs.len()));
     rep.violations.extend(bad);
+    // (iii-b) the public random-tree constructor: every (levels, seed) of a declared grid (it is a deterministic function of
+    //         its seed; the grid is enumerated completely, nothing is sampled by the harness)
+    {
+        let props: Vec<String> = vec!["a".into(), "b".into(), "c".into()];
+        let mut n_rand = 0u64;
+        for levels in 1..=(if tier == "quick" { 5u8 } else { 7 }) {
+            for seed in 0..(if tier == "quick" { 200u64 } else { 1000 }) {
+                n_rand += 1;
+                let r = guarded(std::panic::AssertUnwindSafe(|| biodivine_hctl_model_checker::preprocessing::hctl_tree::HctlTreeNode::new_random_boolean(levels, &props, seed)));
+                match r {
+                    Ok(t) => {
+                        if let Some(what) = check_lib_tree(&t) {
+                            if rep.violations.len() < 60 {
+                                rep.violations.push(Violation { case: json!({"kind": "tree", "random": {"levels": levels, "seed": seed}}), what: format!("new_random_boolean({levels}, [a, b, c], {seed}) = {t}: {what}"), size: 40 + levels as usize });
+                            }
+                        }
+                    }
+                    Err(p) => rep.violations.push(Violation { case: json!({"kind": "tree", "random": {"levels": levels, "seed": seed}}), what: format!("new_random_boolean({levels}, .., {seed}) panics: {p}"), size: 40 }),
+                }
+            }
+        }
+        rep.evaluations += n_rand;
+        rep.set("random_constructor_trees_checked", json!(n_rand));
+    }
     // (iv) deterministic deep chains
     let mut deep = vec![];
     for depth in [50usize, 200] {
@@ -252,6 +281,6 @@ pub fn run(tier: &str) -> Result<Report, String> {
     rep.violations.extend(deep_bad);
     rep.sample(json!({"constructed": "(3{xx} in %3x%: (EXa AW (~{x})))", "round_trip": "parse_extended_formula(to_string(t)) == t, stored text/height checked at each of its 5 nodes"}));
     rep.sample(json!({"parsed": "V{x} in %d%: @{x}: a => %p%"}));
-    rep.rule = format!("every tree with 1..{s_max} nodes assembled with the public mk_* constructors over {} (jump with a domain excluded), every tree parse_extended_formula returns for token sequences of length <= {tlen} over {toks:?}, every tree produced by preprocessing closed formulae, and 46 chains of depth 50/200: stored text and height at every node vs an independent renderer, and print->parse round trip (extended parser; plain parser too on plain trees); distinct_nontrivial = number of distinct constructed trees with at least one operator", alphabet().describe());
+    rep.rule = format!("every tree with 1..{s_max} nodes assembled with the public mk_* constructors over {} (jump with a domain excluded), every tree parse_extended_formula returns for token sequences of length <= {tlen} over {toks:?}, every tree produced by preprocessing closed formulae, every tree HctlTreeNode::new_random_boolean returns on a grid of (levels 1..5/7) x (seeds 0..199/999), and 46 chains of depth 50/200: stored text and height at every node vs an independent renderer, and print->parse round trip (extended parser; plain parser too on plain trees); distinct_nontrivial = number of distinct constructed trees with at least one operator", alphabet().describe());
     Ok(rep)
 }
